@@ -367,6 +367,10 @@ def r02_3(ctx):
     for n in ast.walk(lc.node):
         if isinstance(n, ast.Compare) and len(n.ops) == 1 and isinstance(n.ops[0], ast.Eq) and "line" in ast.unparse(n.left):
             cmp_found.add(ast.unparse(n.comparators[0]))
+        # `line... in (A, B)` compares with each of them
+        if isinstance(n, ast.Compare) and len(n.ops) == 1 and isinstance(n.ops[0], ast.In) and "line" in ast.unparse(n.left) \
+                and isinstance(n.comparators[0], (ast.Tuple, ast.List, ast.Set)):
+            cmp_found |= {ast.unparse(e) for e in n.comparators[0].elts}
     for label, needle in (("reader compares lines with self.comment_default_value", "self.comment_default_value"),
                           ("reader recognises DEP_OP_BEGIN", "DEP_OP_BEGIN"), ("reader recognises DEP_OP_END", "DEP_OP_END")):
         construct = f"Kconfig._load_config/{label}"
